@@ -1,4 +1,4 @@
-CONSTANTS MaxCount = 4 MaxExtra = 2
+CONSTANTS MaxCount = 4 MaxExtra = 2 Rule = "coded"
 SPECIFICATION Spec
-INVARIANTS TypeOK RowInside OwnRow OutBound OneEach Result
+INVARIANTS TypeOK RowInside FarInside OwnRow OutBound OneEach Result OnlyValidDecoded RejectedIdle
 CHECK_DEADLOCK FALSE
